@@ -17,6 +17,6 @@ ASSUME PrintT("META " \o ToJson([DefaultLife |-> DefaultLife, PermTO |-> PermTO,
                                  PeerPorts |-> PeerPorts, InboundMTU |-> InboundMTU,
                                  Extra |-> [auth |-> IF HasAuth THEN "yes" ELSE "no"]]))
 EmitEdge ==
-  PrintT("EDGE " \o ToJson([s |-> <<alloc, perm, chan>>, a |-> last', o |-> out',
-                            t |-> <<alloc', perm', chan'>>]))
+  PrintT("EDGE " \o ToJson([s |-> <<alloc, perm, chan, resv>>, a |-> last', o |-> out',
+                            t |-> <<alloc', perm', chan', resv'>>]))
 =============================================================================
